@@ -32,7 +32,7 @@ theorem lookup_mapAppend (m : IndexMap) (i : Nat) (S : List Nat) (j : Nat) :
   induction m with
   | nil =>
     by_cases h : j = i
-    · subst h; simp [mapAppend, List.lookup_cons, getL]
+    · subst h; simp [mapAppend, getL]
     · have : (j == i) = false := by simpa using h
       simp [mapAppend, List.lookup_cons, h, this]
   | cons p rest ih =>
@@ -40,14 +40,14 @@ theorem lookup_mapAppend (m : IndexMap) (i : Nat) (S : List Nat) (j : Nat) :
     by_cases hik : i = k
     · subst hik
       by_cases hji : j = i
-      · subst hji; simp [mapAppend, List.lookup_cons, getL]
+      · subst hji; simp [mapAppend, getL]
       · have : (j == i) = false := by simpa using hji
         simp [mapAppend, List.lookup_cons, hji, this]
     · have hik' : (i == k) = false := by simpa using hik
       by_cases hjk : j = k
       · subst hjk
         have hji : ¬ j = i := fun h => hik h.symm
-        simp [mapAppend, hik', List.lookup_cons, hji]
+        simp [mapAppend, hik', hji]
       · have hjk' : (j == k) = false := by simpa using hjk
         simp only [mapAppend, hik', Bool.false_eq_true, if_false, List.lookup_cons, hjk', ih, getL]
 
@@ -83,7 +83,7 @@ theorem getL_foldAppend (n : Nat) (S : List Nat) : ∀ (is : List Nat) (m : Inde
       rw [this]
       by_cases hj : j < n
       · have : ¬ i = j := by omega
-        simp [hj, List.count_cons, this]
+        simp [hj, this]
       · simp [hj]
     · simp only [hi, if_false]
       have := getL_foldAppend n S is (mapAppend m i S) j
@@ -92,9 +92,9 @@ theorem getL_foldAppend (n : Nat) (S : List Nat) : ∀ (is : List Nat) (m : Inde
       by_cases hji : j = i
       · subst hji
         have hj : j < n := by omega
-        simp [hj, List.count_cons, List.replicate_succ]
+        simp [hj, List.replicate_succ]
       · have : ¬ i = j := fun h => hji h.symm
-        simp [hji, List.count_cons, this]
+        simp [hji, this]
 
 theorem noEmpty_foldAppend (n : Nat) (S : List Nat) : ∀ (is : List Nat) (m : IndexMap),
     NoEmpty m → NoEmpty (foldAppend n S is m)
@@ -110,7 +110,7 @@ theorem lookup_upsert (fs : Factors) (k : String) (v : TypeMap) (k' : String) :
   induction fs with
   | nil =>
     by_cases h : k' = k
-    · subst h; simp [upsert, List.lookup_cons]
+    · subst h; simp [upsert]
     · have : (k' == k) = false := by simpa using h
       simp [upsert, List.lookup_cons, h, this]
   | cons p rest ih =>
@@ -118,14 +118,14 @@ theorem lookup_upsert (fs : Factors) (k : String) (v : TypeMap) (k' : String) :
     by_cases hka : k = a
     · subst hka
       by_cases h : k' = k
-      · subst h; simp [upsert, List.lookup_cons]
+      · subst h; simp [upsert]
       · have : (k' == k) = false := by simpa using h
         simp [upsert, List.lookup_cons, h, this]
     · have hka' : (k == a) = false := by simpa using hka
       by_cases h : k' = a
       · subst h
         have : ¬ k' = k := fun e => hka e.symm
-        simp [upsert, hka', List.lookup_cons, this]
+        simp [upsert, hka', this]
       · have h' : (k' == a) = false := by simpa using h
         simp only [upsert, hka', Bool.false_eq_true, if_false, List.lookup_cons, h', ih]
 
